@@ -9,7 +9,35 @@ sys.path.insert(0, os.path.join(os.path.dirname(os.path.dirname(HERE)), "tools")
 import vxlib  # noqa: E402
 from vxlib import Undecided  # noqa: E402
 
-ASSUMPTIONS = []
+ASSUMPTIONS = [
+    "ProvisionSharedState::{update_one_state,reset_one_state,get_state,set_provision_finished,get_provision_finished} are stubs: each is ONE atomic "
+    "actor operation on an arbitrary actor state (reply = st|s / st&!s / st / new tick / tick for SOME st). Justified by the verified arm slices "
+    "(state' and reply of every arm) and the verified message slices (which message each wrapper sends); NOT verified: the dispatch loop "
+    "`while let Some(action) = rx.recv().await { match action {..} }` itself and tokio's mpsc/oneshot delivery (oneshot: sent_value(tx) is the value handed to send)",
+    "rely/guarantee: only await-point interleaving of tokio tasks is covered (the actor state is havocked between two awaits of a function); "
+    "the three mutating wrapper methods are called only from update_provision_state / reset_provision_state / provision_timeup (syntactic census over "
+    "proxy_agent/src on every run, UNDECIDED if it changes); provision_timeup is the deadline handler: its only caller (key_keeper.rs) is behind the "
+    "`start.elapsed() > PROVISION_TIMEUP_IN_MILLISECONDS` test (syntactic check), `requires deadline_passed` is otherwise assumed",
+    "bitflags 2.6 semantics of contains / intersects / |= / &= / ! (complement truncated to the declared flags) / clone / bits over u8 "
+    "(exhaustively executed against the real crate: contracts/provision/validate_bitflags.sh); flag values read from the tree's bitflags! text",
+    "callee stubs without behaviour that matters here: logger::{write_warning,write_error,write_serial_console_log}, event_logger::write_event, "
+    "misc_helpers::{try_create_folder,get_date_time_string_with_milliseconds}, config::get_keys_dir, helpers::xml_escape, start_event_threads, "
+    "ConnectionLogger::write, KeyKeeperSharedState::notify, ProvisionSharedState::{get,set}_event_log_threads_initialized; "
+    "misc_helpers::get_date_time_unix_nano returns a clock reading > 0; KeyKeeperSharedState::get_current_secure_channel_state and "
+    "AgentStatusSharedState::get_module_status only report (recorded in the ghost Task); hyper_client::full_body carries its argument's bytes; "
+    "ProxyServer::empty_response has the given status and an empty body",
+    "format!(\"<lit> {} <lit>\", s: String) == lit0 + s + lit1 for the three section literals of get_provision_failed_state_message (E9 stubs whose "
+    "contracts are generated from the literals in the tree); Display/Debug of Error types, ParseIntError, serde_json::Error, io::Error, ProvisionFlags do not panic",
+    "http/hyper/serde_json/std: Request::headers, HeaderMap::get/insert, HeaderValue::to_str/from_static (requires visible ASCII), str::parse, "
+    "serde_json::to_string (result is json_of(value), uninterpreted), Response::new (200) / headers_mut / status_mut frames, String::as_bytes, "
+    "<[u8]>::to_vec, Result::unwrap_or; StatusCode::BAD_REQUEST == 400, INTERNAL_SERVER_ERROR == 500 (E9)",
+    "file system: Path::join appends a relative name as the last component (file_name/parent_dir of joined), PathBuf derefs to the same path; "
+    "POSIX rename replaces the target atomically; `fully_written(path)` is a capability produced only by an Ok fs::write (timeless: nothing else "
+    "writes the temp file between the write and the rename - true under the await-interleaving model since there is no await between them); "
+    "no claim about durability (no fsync) nor about OS-thread-parallel callers sharing the temp name status.tag.tmp",
+    "E13 placeholders: RedirectorSharedState, ProxyServerSharedState (fields of ProxyServer that the handler never touches; real definitions need crate aya)",
+    "&str / String extensionality axioms; String != &str compares character sequences",
+]
 FN_PROPS = {}
 
 PW = "proxy_agent/src/shared_state/provision_wrapper.rs"
@@ -54,6 +82,26 @@ def take_bitflags(u, sf, modname):
         gen.append("pub const PF_%s: u8 = %d;" % (k, v))
         union |= v
     gen.append("pub const PF_DECLARED_UNION: u8 = %d; // bitflags `all()`: union of every declared flag" % union)
+    vals = "a == %du8, b == %du8, c == %du8, d == %du8, n == %du8, un == %du8" % (consts["REDIRECTOR_READY"], consts["KEY_LATCH_READY"], consts["LISTENER_READY"], consts["ALL_READY"], consts["NONE"], union)
+    gen.append("""
+// What the representation must satisfy for the three readiness reports to be independent facts, and for the code's
+// test `contains(ALL_READY)` to mean "all three" (proved for the values that are in the tree):
+pub proof fn lemma_flag_layout()
+    ensures
+        PF_NONE == 0,
+        PF_REDIRECTOR_READY != 0 && PF_KEY_LATCH_READY != 0 && PF_LISTENER_READY != 0,
+        PF_REDIRECTOR_READY & PF_KEY_LATCH_READY == 0 && PF_REDIRECTOR_READY & PF_LISTENER_READY == 0 && PF_KEY_LATCH_READY & PF_LISTENER_READY == 0,
+        PF_ALL_READY == PF_REDIRECTOR_READY | PF_KEY_LATCH_READY | PF_LISTENER_READY,
+        PF_DECLARED_UNION == PF_ALL_READY,
+{
+    let (a, b, c, d, n, un) = (PF_REDIRECTOR_READY, PF_KEY_LATCH_READY, PF_LISTENER_READY, PF_ALL_READY, PF_NONE, PF_DECLARED_UNION);
+    assert(n == 0) by (bit_vector) requires %(v)s;  // @C16.flags.none_is_empty
+    assert(a != 0 && b != 0 && c != 0) by (bit_vector) requires %(v)s;  // @C16.flags.each_subsystem_has_a_bit
+    assert(a & b == 0 && a & c == 0 && b & c == 0) by (bit_vector) requires %(v)s;  // @C16.flags.bits_disjoint
+    assert(d == a | b | c) by (bit_vector) requires %(v)s;  // @C16.flags.all_ready_is_union_of_three
+    assert(un == d) by (bit_vector) requires %(v)s;  // @C16.flags.no_other_flag_declared
+}
+""" % dict(v=vals))
     u.emit("\n".join(gen), "rule", "E6")
     u.rule("E6", "spec constants PF_* generated from the literal flag values in the tree: %s" % consts)
     return consts
